@@ -308,7 +308,7 @@ class FnSpec:
     def __init__(self, file, qualname, args, prop, mode='int', requires=(), ensures=(), rejects=(),
                  frame=None, loops=None, callees=None, ghosts=None, ignore=(), name=None, check_fits=False,
                  allow_raise=(), hints=None, pre_hints=(), slice=None, live_in=None, post_hints=(), inline=(),
-                 name_values=(), blocks=(), opaque_mul=False):
+                 name_values=(), blocks=(), opaque_mul=False, auto_skolem=False):
         self.file, self.qualname, self.args, self.prop, self.mode = file, qualname, args, prop, mode
         self.requires, self.ensures, self.rejects = list(requires), list(ensures), list(rejects)
         self.frame = frame            # list of array arg names that may be written (None = no frame check)
@@ -327,6 +327,7 @@ class FnSpec:
         self.inline = list(inline)
         self.name_values = set(name_values)
         self.blocks = list(blocks)
+        self.auto_skolem = auto_skolem  # universally quantified goals are proved for fresh constants with engine-side instantiation of the hypotheses
         self.opaque_mul = opaque_mul    # abstraction: real products / quotients of non-constants are uninterpreted (sound: proves more general fact)
 
 
@@ -466,7 +467,16 @@ class Engine:
             o.result = dict(status='unsat', backend='simplifier', time=0.0)
             self.obls.append(o)
             return
-        self.obls.append(Obl(name, kind, list(st.pc), g, src, getattr(node, 'lineno', 0), self.spec.name, extra))
+        pc, g2 = list(st.pc), g
+        if getattr(self.spec, 'auto_skolem', False) and z3.is_quantifier(g) and g.is_forall() and g.num_vars() <= 2 \
+                and all(g.var_sort(k) == z3.IntSort() for k in range(g.num_vars())):
+            # a universally quantified goal (invariant clause, postcondition): prove it for fresh constants, with the universal
+            # hypotheses instantiated at them by the engine (see instantiate_at) - the generalisation is what gets assumed afterwards
+            cs = [fresh('sk_' + g.var_name(k).replace('?b', ''), z3.IntSort()) for k in range(g.num_vars())]
+            tmp = St(st.env, st.heap, pc)
+            self.instantiate_at(tmp, cs)
+            g2 = simp(z3.substitute_vars(g.body(), *reversed(cs)))
+        self.obls.append(Obl(name, kind, pc, g2, src, getattr(node, 'lineno', 0), self.spec.name, extra))
         st.pc.append(g)      # assert-then-assume
 
     def feasible(self, st, cond):
